@@ -140,8 +140,8 @@ def _propagate_locals(fn):
         parents = {}
 
         def _off(n_):
-            b_ = (n_.get("range") or {}).get("begin") or {}
-            return b_.get("offset", (b_.get("expansionLoc") or {}).get("offset", (b_.get("spellingLoc") or {}).get("offset", -1)))
+            # position in the (normalised) tree, not in the source text: inlined helper bodies sit where they execute
+            return n_.get("_pb", -1)
         for n in _jwalk(body):
             for c in n.get("inner") or []:
                 if isinstance(c, dict):
@@ -338,6 +338,398 @@ def _inline_void_helpers(roots):
     return count
 
 
+# functions of the C sources as they were when the rules were written (rule anchors): never inlined by _inline_param_helpers
+KNOWN_C_FUNCS = frozenset("""partition partinit ptnghb ptsort pt_fld fifo_add fifo_empty fifo_first int_minval specpart PyInit_specpart
+main""".split())
+
+
+def _written_params(body, pids):
+    out = set()
+    for n in _jwalk(body):
+        k = n.get("kind")
+        if k in ("BinaryOperator", "CompoundAssignOperator") and n.get("opcode", "").endswith("=") and n.get("opcode") not in ("==", "!=", "<=", ">="):
+            lhs = _strip_j(n["inner"][0])
+            if lhs.get("kind") == "DeclRefExpr" and lhs["referencedDecl"]["id"] in pids:
+                out.add(lhs["referencedDecl"]["id"])
+        elif k == "UnaryOperator" and n.get("opcode") in ("++", "--", "&"):
+            t = _strip_j(n["inner"][0])
+            if t.get("kind") == "DeclRefExpr" and t["referencedDecl"]["id"] in pids:
+                out.add(t["referencedDecl"]["id"])
+    return out
+
+
+def _inline_param_helpers(roots, in_main=lambda n: True):
+    """AST normalisation: a call of a function that did not exist when the rules were written (an extract-function refactoring of a
+    loop body or a code block, with parameters) is replaced by the callee's body with the parameters bound to the arguments:
+      * `h(.., &v, ..)` with a pointer parameter p:  `*p` becomes `v`, a bare `p` becomes `&v`;
+      * a parameter the body never writes becomes the argument expression when that is a variable, a literal or `&v`, otherwise a
+        fresh local initialised with the argument;
+      * a parameter the body writes: `v = h(.., v, ..)` with `return p;` as the last statement binds p to v itself; any other use gets
+        a fresh local copy;
+      * `lhs = h(..)` / `h(..);` are the two call forms handled; the only `return` is the callee's last statement.
+    The callee's own locals keep their names (name-keyed analyses then join them with same-named caller locals: an over-approximation);
+    their assignments are flagged `_inl` so that they never kill a caller's definition in the reaching-definitions refinement.
+    Anything outside this (recursion, several returns, calls nested in expressions) is left as a call and the rules see the call."""
+    funcs = {}
+    for r in roots:
+        tops = r.get("inner", []) if r.get("kind") == "TranslationUnitDecl" else [r]
+        for n in tops:
+            if n.get("kind") == "FunctionDecl" and n.get("name") not in KNOWN_C_FUNCS and in_main(n) and any(
+                    isinstance(c, dict) and c.get("kind") == "CompoundStmt" for c in n.get("inner", [])):
+                if any(isinstance(c, dict) and c.get("kind") == "ParmVarDecl" for c in n.get("inner", [])):
+                    funcs[n["name"]] = n
+    if not funcs:
+        return 0
+    uid = [0]
+
+    def callee_name(c):
+        if isinstance(c, dict) and c.get("kind") == "CallExpr" and c.get("inner"):
+            cal = _strip_j(c["inner"][0])
+            if cal.get("kind") == "DeclRefExpr":
+                return cal.get("referencedDecl", {}).get("name")
+        return None
+
+    def eligible(h):
+        body = next(x for x in h["inner"] if isinstance(x, dict) and x.get("kind") == "CompoundStmt")
+        rets = [x for x in _jwalk(body) if x.get("kind") == "ReturnStmt"]
+        stmts = [x for x in body.get("inner") or [] if isinstance(x, dict)]
+        if len(rets) > 1 or (rets and (not stmts or stmts[-1] is not rets[0])):
+            return None
+        if any(callee_name(x) == h["name"] for x in _jwalk(body)):
+            return None
+        if any(x.get("kind") in ("GotoStmt", "LabelStmt") or (x.get("kind") == "VarDecl" and x.get("storageClass") == "static") for x in _jwalk(body)):
+            return None
+        return body
+
+    def simple_arg(a):
+        a0 = _strip_j(a)
+        if a0.get("kind") in ("DeclRefExpr", "IntegerLiteral", "FloatingLiteral"):
+            return True
+        return False
+
+    def addr_of_var(a):
+        a0 = _strip_j(a)
+        if a0.get("kind") == "UnaryOperator" and a0.get("opcode") == "&":
+            t = _strip_j(a0["inner"][0])
+            if t.get("kind") == "DeclRefExpr":
+                return t
+        return None
+
+    def expand(h, call, lhs, rng):
+        """-> list of statements replacing the call statement, or None."""
+        body = eligible(h)
+        if body is None:
+            return None
+        params = [c for c in h["inner"] if isinstance(c, dict) and c.get("kind") == "ParmVarDecl"]
+        args = call["inner"][1:]
+        if len(args) != len(params):
+            return None
+        pids = {p_["id"] for p_ in params}
+        written = _written_params(body, pids)
+        new = _jcopy(body)
+        stmts = [x for x in new.get("inner") or [] if isinstance(x, dict)]
+        ret = stmts[-1] if stmts and stmts[-1].get("kind") == "ReturnStmt" else None
+        ret_expr = ret["inner"][0] if ret is not None and ret.get("inner") else None
+        if ret is not None:
+            stmts = stmts[:-1]
+        uid[0] += 1
+        pre = []
+        bind = {}       # pid -> ("expr", node) | ("addr", declref of v) | ("var", declref)
+        drop_return = False
+        for p_, a in zip(params, args):
+            pid = p_["id"]
+            av = addr_of_var(a)
+            if av is not None and pid not in written:
+                bind[pid] = ("addr", av, a)
+                continue
+            a0 = _strip_j(a)
+            if pid not in written and simple_arg(a):
+                bind[pid] = ("expr", a0)
+                continue
+            if pid in written and a0.get("kind") == "DeclRefExpr" and lhs is not None and ret_expr is not None:
+                l0, r0 = _strip_j(lhs), _strip_j(ret_expr)
+                if l0.get("kind") == "DeclRefExpr" and l0["referencedDecl"]["id"] == a0["referencedDecl"]["id"] and \
+                        r0.get("kind") == "DeclRefExpr" and r0["referencedDecl"]["id"] == pid:
+                    bind[pid] = ("expr", a0)
+                    drop_return = True
+                    continue
+            # fresh local copy
+            nid = f"inl{uid[0]}_{pid}"
+            nm = f"{h['name']}__{p_['name']}"
+            vd = {"kind": "VarDecl", "id": nid, "name": nm, "type": p_.get("type", {}), "init": "c", "inner": [_jcopy(a)], "range": rng, "_inl": True}
+            pre.append({"kind": "DeclStmt", "inner": [vd], "range": rng, "_inl": True})
+            ref = {"kind": "DeclRefExpr", "type": p_.get("type", {}), "valueCategory": "lvalue", "range": rng,
+                   "referencedDecl": {"id": nid, "kind": "VarDecl", "name": nm, "type": p_.get("type", {})}}
+            bind[pid] = ("expr", ref)
+
+        def sub(n):
+            if not isinstance(n, dict):
+                return n
+            k = n.get("kind")
+            if k == "UnaryOperator" and n.get("opcode") == "*":
+                t = _strip_j(n["inner"][0])
+                if t.get("kind") == "DeclRefExpr" and bind.get(t["referencedDecl"]["id"], ("",))[0] == "addr":
+                    return _jcopy(bind[t["referencedDecl"]["id"]][1])
+            if k == "DeclRefExpr" and n.get("referencedDecl", {}).get("id") in bind:
+                b = bind[n["referencedDecl"]["id"]]
+                if b[0] == "addr":
+                    return _jcopy(_strip_j(b[2]))
+                return _jcopy(b[1])
+            if n.get("inner"):
+                n["inner"] = [sub(c) for c in n["inner"]]
+            return n
+        stmts = [sub(x) for x in stmts]
+        if ret_expr is not None:
+            ret_expr = sub(ret_expr)
+        for x in stmts:
+            for y in _jwalk(x):
+                y["_inl"] = True
+        out = pre + stmts
+        if ret_expr is not None and not drop_return:
+            if lhs is not None:
+                out.append({"kind": "BinaryOperator", "opcode": "=", "type": lhs.get("type", {}), "valueCategory": "prvalue", "range": rng,
+                            "inner": [_jcopy(lhs), ret_expr]})
+            elif any(x.get("kind") in ("CallExpr",) or (x.get("kind") == "UnaryOperator" and x.get("opcode") in ("++", "--")) or
+                     (x.get("kind") in ("BinaryOperator", "CompoundAssignOperator") and x.get("opcode", "").endswith("=") and
+                      x.get("opcode") not in ("==", "!=", "<=", ">=")) for x in _jwalk(ret_expr)):
+                out.append(ret_expr)
+        return out
+
+    def as_call_stmt(c):
+        """-> (call node, lhs or None) when statement c is `h(..);` or `lhs = h(..);` with h inlinable."""
+        if not isinstance(c, dict):
+            return None, None
+        c0 = c
+        while c0.get("kind") in ("ParenExpr",) and c0.get("inner"):
+            c0 = c0["inner"][0]
+        if c0.get("kind") == "CallExpr" and callee_name(c0) in funcs:
+            return c0, None
+        if c0.get("kind") == "BinaryOperator" and c0.get("opcode") == "=" and len(c0.get("inner", [])) == 2:
+            r = _strip_j(c0["inner"][1])
+            if r.get("kind") == "CallExpr" and callee_name(r) in funcs:
+                return r, c0["inner"][0]
+        return None, None
+    count = 0
+    used = set()
+    for _round in range(4):
+        did = 0
+        for r in roots:
+            for n in list(_jwalk(r)):
+                k = n.get("kind")
+                inner = n.get("inner") or []
+                if k == "CompoundStmt":
+                    i = 0
+                    while i < len(inner):
+                        call, lhs = as_call_stmt(inner[i])
+                        if call is not None:
+                            out = expand(funcs[callee_name(call)], call, lhs, inner[i].get("range", {}))
+                            if out is not None:
+                                used.add(callee_name(call))
+                                inner[i:i + 1] = out
+                                i += len(out)
+                                did += 1
+                                continue
+                        i += 1
+                elif k in ("IfStmt", "ForStmt", "WhileStmt", "DoStmt"):
+                    for i, c in enumerate(inner):
+                        if k == "ForStmt" and i < 4:
+                            continue
+                        if k in ("IfStmt", "WhileStmt") and i == 0:
+                            continue
+                        call, lhs = as_call_stmt(c)
+                        if call is not None:
+                            out = expand(funcs[callee_name(call)], call, lhs, c.get("range", {}))
+                            if out is not None:
+                                used.add(callee_name(call))
+                                inner[i] = {"kind": "CompoundStmt", "inner": out, "range": c.get("range", {})}
+                                did += 1
+        count += did
+        if not did:
+            break
+    still = set()
+    for r in roots:
+        for n in _jwalk(r):
+            nm = callee_name(n)
+            if nm:
+                still.add(nm)
+    for r in roots:
+        if r.get("kind") == "TranslationUnitDecl":
+            r["inner"] = [n for n in r.get("inner", []) if not (n.get("kind") == "FunctionDecl" and n.get("name") in used and n.get("name") not in still)]
+    return count
+
+
+def _induction_pointers(fn):
+    """AST normalisation (induction-variable substitution): a local running pointer
+        T *p = base;  for (i = 0; i < N1; i++) for (j = 0; j < N2; j++) { .. *p++ .. }
+    that is advanced exactly once per innermost iteration of a perfect nest of counted loops, and used nowhere else, addresses
+    base[j + N2*i]; the dereference is rewritten to that subscript and the pointer disappears.  Anything else is left alone (and the
+    rules that need to see every access of a buffer then fail closed on the alias)."""
+    body = next((c for c in fn.get("inner", []) if isinstance(c, dict) and c.get("kind") == "CompoundStmt"), None)
+    if body is None:
+        return 0
+    parents = {}
+    for n in _jwalk(body):
+        for c in n.get("inner") or []:
+            if isinstance(c, dict):
+                parents[id(c)] = n
+
+    def counted(loop):
+        inner = loop.get("inner") or []
+        if len(inner) != 5 or not all(isinstance(inner[i], dict) and inner[i].get("kind") for i in (0, 2, 3, 4)):
+            return None
+        ini, cond, inc = inner[0], _strip_j(inner[2]), _strip_j(inner[3])
+        ini = _strip_j(ini)
+        if not (ini.get("kind") == "BinaryOperator" and ini.get("opcode") == "="):
+            return None
+        v, z = _strip_j(ini["inner"][0]), _strip_j(ini["inner"][1])
+        if v.get("kind") != "DeclRefExpr" or not (z.get("kind") == "IntegerLiteral" and str(z.get("value")) == "0"):
+            return None
+        vid = v["referencedDecl"]["id"]
+        if not (cond.get("kind") == "BinaryOperator" and cond.get("opcode") == "<"):
+            return None
+        cl, cr = _strip_j(cond["inner"][0]), _strip_j(cond["inner"][1])
+        if not (cl.get("kind") == "DeclRefExpr" and cl["referencedDecl"]["id"] == vid and cr.get("kind") in ("DeclRefExpr", "IntegerLiteral")):
+            return None
+        if not (inc.get("kind") == "UnaryOperator" and inc.get("opcode") == "++"):
+            return None
+        it = _strip_j(inc["inner"][0])
+        if not (it.get("kind") == "DeclRefExpr" and it["referencedDecl"]["id"] == vid):
+            return None
+        return v, cr
+
+    def assigned_in(node, rid):
+        for x in _jwalk(node):
+            k = x.get("kind")
+            if k in ("BinaryOperator", "CompoundAssignOperator") and x.get("opcode", "").endswith("=") and x.get("opcode") not in ("==", "!=", "<=", ">="):
+                t = _strip_j(x["inner"][0])
+                if t.get("kind") == "DeclRefExpr" and t["referencedDecl"]["id"] == rid:
+                    return True
+            if k == "UnaryOperator" and x.get("opcode") in ("++", "--", "&"):
+                t = _strip_j(x["inner"][0])
+                if t.get("kind") == "DeclRefExpr" and t["referencedDecl"]["id"] == rid:
+                    return True
+        return False
+    done = 0
+    for vd in [n for n in _jwalk(body) if n.get("kind") == "VarDecl" and n.get("init") and n.get("inner")
+               and "*" in n.get("type", {}).get("qualType", "") and n.get("storageClass") != "static"]:
+        pid = vd["id"]
+        dstmt = parents.get(id(vd))
+        if dstmt is None or dstmt.get("kind") != "DeclStmt" or len([c for c in dstmt["inner"] if isinstance(c, dict)]) != 1:
+            continue
+        block = parents.get(id(dstmt))
+        if block is None or block.get("kind") != "CompoundStmt":
+            continue
+        refs = [n for n in _jwalk(body) if n.get("kind") == "DeclRefExpr" and n.get("referencedDecl", {}).get("id") == pid]
+        if len(refs) != 1:
+            continue
+        ref = refs[0]
+        # ref -> (casts) -> p++ -> (casts/parens) -> *(..)
+        inc = parents.get(id(ref))
+        while inc is not None and inc.get("kind") in ("ImplicitCastExpr", "ParenExpr"):
+            inc = parents.get(id(inc))
+        if inc is None or not (inc.get("kind") == "UnaryOperator" and inc.get("opcode") == "++" and inc.get("isPostfix")):
+            continue
+        der = parents.get(id(inc))
+        while der is not None and der.get("kind") in ("ImplicitCastExpr", "ParenExpr"):
+            der = parents.get(id(der))
+        if der is None or not (der.get("kind") == "UnaryOperator" and der.get("opcode") == "*"):
+            continue
+        # the statement holding the dereference is a top-level statement of the innermost loop body
+        st = der
+        while parents.get(id(st)) is not None and parents[id(st)].get("kind") not in ("CompoundStmt", "ForStmt", "IfStmt", "WhileStmt", "DoStmt"):
+            st = parents[id(st)]
+        holder = parents.get(id(st))
+        loop = holder if holder is not None and holder.get("kind") == "ForStmt" else parents.get(id(holder)) if holder is not None else None
+        if holder is None or holder.get("kind") not in ("CompoundStmt", "ForStmt") or loop is None or loop.get("kind") != "ForStmt":
+            continue
+        if holder.get("kind") == "ForStmt" and holder["inner"][4] is not st:
+            continue
+        if holder.get("kind") == "CompoundStmt" and loop["inner"][4] is not holder:
+            continue
+        nest = []
+        cur = loop
+        ok = True
+        while True:
+            cl = counted(cur)
+            if cl is None:
+                ok = False
+                break
+            nest.append((cur, cl))
+            up = parents.get(id(cur))
+            if up is block:
+                break
+            if up is not None and up.get("kind") == "CompoundStmt" and len([c for c in up["inner"] if isinstance(c, dict)]) == 1:
+                up2 = parents.get(id(up))
+            else:
+                up2 = up
+            if up2 is None or up2.get("kind") != "ForStmt" or up2["inner"][4] is not (up if up2 is not up else cur):
+                ok = False
+                break
+            cur = up2
+        if not ok:
+            continue
+        outer = nest[-1][0]
+        if any(x.get("kind") in ("BreakStmt", "ContinueStmt", "ReturnStmt", "GotoStmt") for x in _jwalk(outer)):
+            continue
+        # declaration precedes the nest in the same block; bounds and loop variables are not modified inside the nest
+        sib = [c for c in block["inner"] if isinstance(c, dict)]
+        if dstmt not in sib or outer not in sib or sib.index(dstmt) > sib.index(outer):
+            continue
+        bad = False
+        for lp, (v, bound) in nest:
+            if bound.get("kind") == "DeclRefExpr" and assigned_in(outer, bound["referencedDecl"]["id"]):
+                bad = True
+            if assigned_in(lp["inner"][4], v["referencedDecl"]["id"]):
+                bad = True
+        base = vd["inner"][-1]
+        for x in _jwalk(base):
+            if x.get("kind") == "DeclRefExpr" and x["referencedDecl"].get("kind") != "FunctionDecl" and \
+                    any(assigned_in(s_, x["referencedDecl"]["id"]) for s_ in sib[sib.index(dstmt) + 1: sib.index(outer) + 1]):
+                bad = True
+        if bad:
+            continue
+        ity = {"qualType": "int"}
+        rng = der.get("range", {})
+
+        def rv(d):
+            return {"kind": "ImplicitCastExpr", "castKind": "LValueToRValue", "type": ity, "valueCategory": "prvalue", "range": rng, "inner": [_jcopy(d)]}
+        idx = None
+        for lp, (v, bound) in reversed(nest):        # outermost first
+            term = rv(v)
+            if idx is None:
+                idx = term
+            else:
+                b_ = rv(bound) if bound.get("kind") == "DeclRefExpr" else _jcopy(bound)
+                mul = {"kind": "BinaryOperator", "opcode": "*", "type": ity, "valueCategory": "prvalue", "range": rng, "inner": [b_, idx]}
+                idx = {"kind": "BinaryOperator", "opcode": "+", "type": ity, "valueCategory": "prvalue", "range": rng, "inner": [term, mul]}
+        der["kind"] = "ArraySubscriptExpr"
+        der.pop("opcode", None)
+        der.pop("isPostfix", None)
+        der["inner"] = [_jcopy(base), idx]
+        block["inner"].remove(dstmt)
+        done += 1
+    return done
+
+
+def _number(roots):
+    """Execution-order positions: `_pb` on entry, `_pe` on exit of every node, in one pre/post-order numbering of the normalised tree.
+    Every 'lies between' test of the analyses uses these, never source offsets (an inlined helper body has the offsets of its definition)."""
+    c = 0
+    for r in roots:
+        stack = [(r, False)]
+        while stack:
+            n, done = stack.pop()
+            c += 1
+            if done:
+                n["_pe"] = c
+                continue
+            n["_pb"] = c
+            stack.append((n, True))
+            for ch in reversed(n.get("inner") or []):
+                if isinstance(ch, dict):
+                    stack.append((ch, False))
+
+
 def _multi_json(text):
     dec = json.JSONDecoder()
     i, n, out = 0, len(text), []
@@ -374,12 +766,20 @@ class CFile:
         for r in roots:
             _normalise(r)
         self.norm_inlined = _inline_void_helpers(roots)
+        self.norm_inlined += _inline_param_helpers(roots, self._in_main)
+        for r in roots:
+            tops = r.get("inner", []) if r.get("kind") == "TranslationUnitDecl" else [r]
+            for n in tops:
+                if n.get("kind") == "FunctionDecl" and self._in_main(n):
+                    self.norm_inlined += _induction_pointers(n)
+        _number(roots)
         self.norm_propagated = 0
         for r in roots:
             tops = r.get("inner", []) if r.get("kind") == "TranslationUnitDecl" else [r]
             for n in tops:
                 if n.get("kind") == "FunctionDecl":
                     self.norm_propagated += _propagate_locals(n)
+        _number(roots)
         self.roots = roots
         self.funcs = {}
         self.globals = []
@@ -441,6 +841,14 @@ class CFile:
             if k in locd and "offset" in locd[k]:
                 return locd[k]["offset"]
         return None
+
+    @staticmethod
+    def pb(n):
+        return n.get("_pb")
+
+    @staticmethod
+    def pe(n):
+        return n.get("_pe")
 
     def line(self, n):
         off = self._off(n.get("range", {}).get("begin")) or self._off(n.get("loc"))
